@@ -56,6 +56,10 @@ type Program struct {
 	Vars   []VarDef  `json:"vars,omitempty"`
 	Tasks  []TaskDef `json:"tasks"`
 	Layout int       `json:"layout,omitempty"`
+	// Seq: the statements of a standard command are separated by ";" instead of "&&": the command then
+	// relies on the shell's errexit behaviour (spok runs every command with `set -e`) to fail when its
+	// control script returns non-zero without calling exit
+	Seq bool `json:"seq,omitempty"`
 }
 
 // StdCmd is the text of the i-th standard command of task t: it appends a
@@ -64,6 +68,19 @@ type Program struct {
 // between invocations) and prints distinct markers on stdout and stderr.
 func StdCmd(t string, i int) string {
 	return fmt.Sprintf("echo %s.%d >> $LOG && source $CTL/%s_%d && echo OUT_%s_%d && echo ERR_%s_%d >&2", t, i, t, i, t, i, t, i)
+}
+
+// StdCmdSeq is StdCmd with ";" between the statements.
+func StdCmdSeq(t string, i int) string {
+	return fmt.Sprintf("echo %s.%d >> $LOG; source $CTL/%s_%d; echo OUT_%s_%d; echo ERR_%s_%d >&2", t, i, t, i, t, i, t, i)
+}
+
+// Cmd is the text of the i-th standard command of task t in program p.
+func (p *Program) Cmd(t string, i int) string {
+	if p.Seq {
+		return StdCmdSeq(t, i)
+	}
+	return StdCmd(t, i)
 }
 
 // Render writes the program as spokfile text (LF only) in one of a few layouts.
@@ -125,7 +142,7 @@ func (p *Program) Render() string {
 			fmt.Fprintf(&b, "%secho %s > $PROJ/%s\n", ind, fw.Content, fw.Path)
 		}
 		for i := 0; i < t.NCmd; i++ {
-			b.WriteString(ind + StdCmd(t.Name, i) + "\n")
+			b.WriteString(ind + p.Cmd(t.Name, i) + "\n")
 		}
 		for _, r := range t.Raw {
 			b.WriteString(ind + r + "\n")
